@@ -4,6 +4,7 @@
 //! raw group operations (`RefGroup`).  No allocation: fixed-capacity byte strings.
 
 use digest::{core_api::BlockSizeUser, Digest};
+use hpke::verif_model::{ConstHash, InternHash, LinHash, LIN_K, LIN_SEED};
 
 /// fixed-capacity byte string
 #[derive(Clone, Copy)]
@@ -37,21 +38,73 @@ pub const MAX_NH: usize = 64;
 pub const MAX_BLOCK: usize = 128;
 pub type Digest64 = Bytes<MAX_NH>;
 
-fn finish<D: Digest>(d: D) -> Digest64 {
+/// The raw hash function the reference is built on (the only thing it takes from outside).
+pub trait RefHash {
+    const NH: usize;
+    const BLOCK: usize;
+    /// H(concat(parts))
+    fn hash(parts: &[&[u8]]) -> Digest64;
+}
+
+/// any `digest::Digest` (used for the interning hash, and for real SHA-2 outside Kani)
+pub fn hash_via_digest<D: Digest>(parts: &[&[u8]]) -> Digest64 {
+    let mut d = D::new();
+    for p in parts {
+        d.update(p);
+    }
     let o = d.finalize();
     let mut r = Digest64::new();
     r.push(&o);
     r
 }
 
+/// LinHash written out on its u64 state (same function as model/inrepo.rs `LinHash`; that the two
+/// agree is itself decided by the un-stubbed differential harnesses, which run the Digest impl
+/// through the real hmac/hkdf crates and compare with this one)
+impl RefHash for LinHash {
+    const NH: usize = 8;
+    const BLOCK: usize = 8;
+    fn hash(parts: &[&[u8]]) -> Digest64 {
+        let mut acc: u64 = LIN_SEED;
+        let mut len: u64 = 0;
+        let mut p = 0;
+        while p < parts.len() {
+            let d = parts[p];
+            let mut i = 0;
+            while i < d.len() {
+                acc = acc.rotate_left(5) ^ (d[i] as u64) ^ LIN_K;
+                len += 1;
+                i += 1;
+            }
+            p += 1;
+        }
+        let mut r = Digest64::new();
+        r.b[..8].copy_from_slice(&(acc ^ len.rotate_left(29)).to_be_bytes());
+        r.n = 8;
+        r
+    }
+}
+impl RefHash for InternHash {
+    const NH: usize = 12;
+    const BLOCK: usize = 12;
+    fn hash(parts: &[&[u8]]) -> Digest64 {
+        hash_via_digest::<InternHash>(parts)
+    }
+}
+impl RefHash for ConstHash {
+    const NH: usize = 2;
+    const BLOCK: usize = 2;
+    fn hash(parts: &[&[u8]]) -> Digest64 {
+        hash_via_digest::<ConstHash>(parts)
+    }
+}
+
 /// RFC 2104: HMAC(K, text) = H((K0 ^ opad) || H((K0 ^ ipad) || text)), text = concatenation of `parts`
-pub fn hmac<D: Digest + BlockSizeUser>(key: &[u8], parts: &[&[u8]]) -> Digest64 {
-    let bs = <D as BlockSizeUser>::block_size();
+pub fn hmac<D: RefHash>(key: &[u8], parts: &[&[u8]]) -> Digest64 {
+    let bs = D::BLOCK;
     let mut k0 = [0u8; MAX_BLOCK];
     if key.len() > bs {
-        let mut d = D::new();
-        d.update(key);
-        let h = finish(d);
+        let h = D::hash(&[key]);
         k0[..h.n].copy_from_slice(h.as_slice());
     } else {
         k0[..key.len()].copy_from_slice(key);
@@ -64,26 +117,26 @@ pub fn hmac<D: Digest + BlockSizeUser>(key: &[u8], parts: &[&[u8]]) -> Digest64 
         opad[i] = k0[i] ^ 0x5c;
         i += 1;
     }
-    let mut inner = D::new();
-    inner.update(&ipad[..bs]);
-    for p in parts {
-        inner.update(p);
+    // inner = H(ipad || text)
+    let mut inner_parts: [&[u8]; 10] = [&[]; 10];
+    inner_parts[0] = &ipad[..bs];
+    let mut k = 0;
+    while k < parts.len() {
+        inner_parts[1 + k] = parts[k];
+        k += 1;
     }
-    let ih = finish(inner);
-    let mut outer = D::new();
-    outer.update(&opad[..bs]);
-    outer.update(ih.as_slice());
-    finish(outer)
+    let ih = D::hash(&inner_parts[..k + 1]);
+    D::hash(&[&opad[..bs], ih.as_slice()])
 }
 
 /// RFC 5869 2.2: PRK = HMAC-Hash(salt, IKM); an absent salt is HashLen zeros (same K0 after padding)
-pub fn hkdf_extract<D: Digest + BlockSizeUser>(salt: &[u8], ikm_parts: &[&[u8]]) -> Digest64 {
+pub fn hkdf_extract<D: RefHash>(salt: &[u8], ikm_parts: &[&[u8]]) -> Digest64 {
     hmac::<D>(salt, ikm_parts)
 }
 
 /// RFC 5869 2.3: T(i) = HMAC-Hash(PRK, T(i-1) | info | i); returns false iff L > 255*HashLen
-pub fn hkdf_expand<D: Digest + BlockSizeUser>(prk: &[u8], info_parts: &[&[u8]], out: &mut [u8]) -> bool {
-    let nh = <D as Digest>::output_size();
+pub fn hkdf_expand<D: RefHash>(prk: &[u8], info_parts: &[&[u8]], out: &mut [u8]) -> bool {
+    let nh = D::NH;
     let l = out.len();
     if l > 255 * nh {
         return false;
@@ -119,12 +172,12 @@ pub fn hkdf_expand<D: Digest + BlockSizeUser>(prk: &[u8], info_parts: &[&[u8]], 
 pub const VERSION_LABEL: &[u8] = b"HPKE-v1";
 
 /// RFC 9180 section 4
-pub fn labeled_extract<D: Digest + BlockSizeUser>(salt: &[u8], suite_id: &[u8], label: &[u8], ikm: &[u8]) -> Digest64 {
+pub fn labeled_extract<D: RefHash>(salt: &[u8], suite_id: &[u8], label: &[u8], ikm: &[u8]) -> Digest64 {
     hkdf_extract::<D>(salt, &[VERSION_LABEL, suite_id, label, ikm])
 }
 
 /// RFC 9180 section 4; returns false iff the length is not representable / too long
-pub fn labeled_expand<D: Digest + BlockSizeUser>(prk: &[u8], suite_id: &[u8], label: &[u8], info: &[u8], out: &mut [u8]) -> bool {
+pub fn labeled_expand<D: RefHash>(prk: &[u8], suite_id: &[u8], label: &[u8], info: &[u8], out: &mut [u8]) -> bool {
     if out.len() > 0xffff {
         return false;
     }
@@ -159,7 +212,7 @@ pub struct Schedule {
 }
 
 /// RFC 9180 5.1 KeySchedule (inputs assumed to have passed VerifyPSKInputs)
-pub fn key_schedule<D: Digest + BlockSizeUser>(
+pub fn key_schedule<D: RefHash>(
     mode: u8,
     shared_secret: &[u8],
     info: &[u8],
@@ -169,7 +222,7 @@ pub fn key_schedule<D: Digest + BlockSizeUser>(
     nk: usize,
     nn: usize,
 ) -> Schedule {
-    let nh = <D as Digest>::output_size();
+    let nh = D::NH;
     let psk_id_hash = labeled_extract::<D>(&[], suite_id, b"psk_id_hash", psk_id);
     let info_hash = labeled_extract::<D>(&[], suite_id, b"info_hash", info);
     let mut ksc = Bytes::<{ 1 + 2 * MAX_NH }>::new();
@@ -205,7 +258,7 @@ pub fn compute_nonce<const NN: usize>(base_nonce: &[u8; NN], seq: u64) -> [u8; N
 }
 
 /// RFC 9180 5.3 Context.Export
-pub fn export<D: Digest + BlockSizeUser>(exporter_secret: &[u8], suite_id: &[u8; 10], exporter_context: &[u8], out: &mut [u8]) -> bool {
+pub fn export<D: RefHash>(exporter_secret: &[u8], suite_id: &[u8; 10], exporter_context: &[u8], out: &mut [u8]) -> bool {
     labeled_expand::<D>(exporter_secret, suite_id, b"sec", exporter_context, out)
 }
 
@@ -228,7 +281,7 @@ pub trait RefGroup {
     fn ser(pk: Self::Pk) -> PkBytes;
 }
 
-fn extract_and_expand<D: Digest + BlockSizeUser>(dh: &[u8], kem_context: &[u8], suite: &[u8; 5], nsecret: usize) -> Digest64 {
+fn extract_and_expand<D: RefHash>(dh: &[u8], kem_context: &[u8], suite: &[u8; 5], nsecret: usize) -> Digest64 {
     let eae_prk = labeled_extract::<D>(&[], suite, b"eae_prk", dh);
     let mut ss = Digest64::new();
     ss.n = nsecret;
@@ -237,7 +290,7 @@ fn extract_and_expand<D: Digest + BlockSizeUser>(dh: &[u8], kem_context: &[u8], 
 }
 
 /// Encap / AuthEncap with a given ephemeral key: returns (shared_secret, enc)
-pub fn encap<G: RefGroup, D: Digest + BlockSizeUser>(
+pub fn encap<G: RefGroup, D: RefHash>(
     kem_id: u16,
     pk_r: G::Pk,
     sk_e: G::Sk,
@@ -258,7 +311,7 @@ pub fn encap<G: RefGroup, D: Digest + BlockSizeUser>(
 }
 
 /// Decap / AuthDecap
-pub fn decap<G: RefGroup, D: Digest + BlockSizeUser>(kem_id: u16, pk_e: G::Pk, sk_r: G::Sk, auth: Option<G::Pk>) -> Option<Digest64> {
+pub fn decap<G: RefGroup, D: RefHash>(kem_id: u16, pk_e: G::Pk, sk_r: G::Sk, auth: Option<G::Pk>) -> Option<Digest64> {
     let suite = kem_suite_id(kem_id);
     let mut dh = Bytes::<{ 2 * MAX_NPK }>::new();
     dh.push(G::dh(sk_r, pk_e)?.as_slice());
@@ -273,7 +326,7 @@ pub fn decap<G: RefGroup, D: Digest + BlockSizeUser>(kem_id: u16, pk_e: G::Pk, s
 }
 
 /// RFC 9180 7.1.3 DeriveKeyPair for X25519/X448-style groups: the Nsk private key bytes
-pub fn derive_sk_simple<D: Digest + BlockSizeUser>(kem_id: u16, ikm: &[u8], out: &mut [u8]) {
+pub fn derive_sk_simple<D: RefHash>(kem_id: u16, ikm: &[u8], out: &mut [u8]) {
     let suite = kem_suite_id(kem_id);
     let dkp_prk = labeled_extract::<D>(&[], &suite, b"dkp_prk", ikm);
     labeled_expand::<D>(dkp_prk.as_slice(), &suite, b"sk", &[], out);
@@ -307,7 +360,7 @@ pub fn is_zero(a: &[u8]) -> bool {
 
 /// RFC 9180 7.1.3 DeriveKeyPair for the NIST curves: candidate loop with counter and bitmask.
 /// Returns the number of the accepted candidate, or None after 256 failures.
-pub fn derive_sk_nist<D: Digest + BlockSizeUser>(kem_id: u16, ikm: &[u8], bitmask: u8, order: &[u8], out: &mut [u8], max_tries: u16) -> Option<u8> {
+pub fn derive_sk_nist<D: RefHash>(kem_id: u16, ikm: &[u8], bitmask: u8, order: &[u8], out: &mut [u8], max_tries: u16) -> Option<u8> {
     let suite = kem_suite_id(kem_id);
     let dkp_prk = labeled_extract::<D>(&[], &suite, b"dkp_prk", ikm);
     let mut counter: u16 = 0;
